@@ -1,5 +1,24 @@
 """C11 — Non-local control flow keeps shadow stack and real stack in step.
-(work in progress: H1 part)"""
+Lean: Uft/Model/NonLocal.lean (shadow stack + real stack + replay fix-up), Uft/Lemmas/NonLocal.lean,
+Uft/Props/C11.lean.
+
+Tie (1), H1: the real libmcount (plthook.c and wrap.c #included in harness/h1_c11_driver.c so that a
+fake PLT module and stubbed real_* pointers can be set up) driven with fake activation frames: generated
+op sequences (calls hooked by mcount/fentry, the PLT or not at all, returns, tail calls, setjmp/longjmp on
+several jmp_bufs, throw / unwinding / landing-pad calls / _Unwind_Resume / catch, vfork+exec, pthread_exit,
+exit, the thread destructor); after every op the returned address, every fake return slot, rstack idx,
+record_idx, in_exception and the new records are compared with the Lean model `C11`.
+
+Tie (2), H5: generated C and C++ programs (harness/c11_e2e.c: a script interpreter spread over instrumented
+functions that logs its own ground-truth call depth) built -pg / -finstrument-functions / -pg -mfentry at
+-O0/-O2, run natively and under the snapshot's uftrace: stdout and exit status must be equal and
+`uftrace replay` must show every traced call at its ground-truth depth; the record stream (`uftrace dump`)
+must be coherent in the sense of `c11_replay_depth_coherent`, and the Lean replay model must agree with
+replay's indentation.
+
+Six behaviours of the anchored code have a repaired and an as-coded variant in the model (Fix flags) or a
+dedicated probe; the check finds out which variant the tree follows, and every as-coded variant is a
+property violation (KNOWN-FINDING if listed open in known_findings.json with property C11)."""
 import glob
 import json
 import os
@@ -8,17 +27,51 @@ import subprocess
 import sys
 from concurrent.futures import ThreadPoolExecutor
 
-from lib import common as C, h1
+from lib import common as C, h1, datadir
 
 FLAGS = ("rehook", "excFrame", "jmpCap", "pthExit", "excPlt")
+FINDING_OF = {"rehook": "C11-REHOOK-ORDER", "excFrame": "C11-EXC-FRAME", "jmpCap": "C11-JMPBUF-OVERFLOW",
+              "pthExit": "C11-PTHREAD-EXIT", "excPlt": "C11-EXC-PLT", "replay": "C11-LONGJMP-DEPTH",
+              "cygTail": "C11-CYG-TAILCALL"}
+WHAT = {
+    "C11-REHOOK-ORDER": "mcount_rstack_rehook() (libmcount/misc.c) loops top->bottom, so for a tail-call chain on one "
+                        "return slot the FIRST entry's trampoline wins: [PLT library function, traced callback it "
+                        "tail-called] gets plthook_return after a catch and the callback's return pops a non-PLT entry: "
+                        "'invalid dynsym idx', the tracee dies (theorem c11_prefix_rehook_order_witness)",
+    "C11-EXC-FRAME": "__mcount_entry() (libmcount/mcount.c) falls back to frame_addr = parent_loc - 1 when parent_loc[-1] "
+                     "is no frame pointer (always with -mfentry): the unwound callee on the same slot survives and the call "
+                     "made from the landing pad is recorded one level too deep (c11_prefix_exc_frame_witness)",
+    "C11-JMPBUF-OVERFLOW": "setup_jmpbuf_rstack() (libmcount/plthook.c) copies mtdp->idx entries into rstack[MCOUNT_RSTACK_MAX]"
+                           ": heap overflow when setjmp is called below 1024 open calls with --max-stack > 1024 "
+                           "(c11_prefix_jmpbuf_overflow_witness)",
+    "C11-PTHREAD-EXIT": "pthread_exit() wrapper (libmcount/wrap.c) drops only its own entry and leaves its return slot "
+                        "hijacked: the forced unwinder walks through plthook_return (crash / destructors skipped) and "
+                        "mtd_dtor later restores the dead frames' return addresses into reused stack: thread result lost "
+                        "(c11_prefix_pthread_exit_witness)",
+    "C11-EXC-PLT": "__plthook_entry() (libmcount/plthook.c) ignores in_exception: a library call from a landing pad is pushed "
+                   "on the unwound entries; __cxa_guard_abort then resumes at the dead entry's return address (exception "
+                   "from a static initialiser is swallowed) and a traced callback from a library destructor ends in "
+                   "'invalid dynsym idx' (c11_prefix_exc_plt_witness)",
+    "C11-CYG-TAILCALL": "mcount_auto_restore() (libmcount/misc.c) takes a -finstrument-functions entry whose parent is "
+                        "plthook_return (a traced callback tail-called by a PLT-hooked library function) for a tail-call "
+                        "chain member and restores the library call's return slot; mcount_auto_rehook() only rewrites "
+                        "cygprof_dummy, so the hook is lost at the callback's first library call: the PLT entry is never "
+                        "popped and a later library call returns to the wrong place (H5 only: the cygprof path is not in the "
+                        "model)",
+    "C11-LONGJMP-DEPTH": "replay's longjmp fix-up (utils/fstack.c) keeps one global setjmp_depth (last setjmp seen): after a "
+                         "longjmp to any other live jmp_buf every later call is shown too deep "
+                         "(c11_prefix_longjmp_depth_witness)",
+}
 
 # child ids of harness/h1_c11_driver.c
 F_PLAIN = (100, 112, 113)
 F_SETJMP = (101, 110)
 F_LONGJMP = (102, 109)
-F_VFORK, F_EXECL, F_EXIT, F_PEXIT, F_FORK = 103, 104, 105, 106, 111
+F_VFORK, F_EXECL, F_EXIT, F_PEXIT = 103, 104, 105, 106
+WATCH = 63
 
 
+# ============================================================================ H1
 def build_h1(ctx, out="h1c11"):
     """lib/h1.build, but plthook.c and wrap.c are compiled as part of the driver (which #includes them)."""
     ctx.snapshot()
@@ -38,7 +91,6 @@ def build_h1(ctx, out="h1c11"):
     for s in srcs:
         o = os.path.join(objdir, os.path.relpath(s, src).replace("/", "_") + ".o")
         jobs.append((["gcc"] + flags + ["-c", s, "-o", o], o))
-    # the driver carries plthook.c and wrap.c: the library's own flags
     o = os.path.join(objdir, "drv_c11.o")
     jobs.append((["gcc"] + flags + ["-c", os.path.join(hdir, "h1_c11_driver.c"), "-o", o], o))
     o = os.path.join(objdir, "drv_funcs_b.o")
@@ -62,33 +114,978 @@ def build_h1(ctx, out="h1c11"):
 
 
 def run_script(ctx, exe, lines, idx):
-    r = h1.run(ctx, exe, {}, lines, idx)
+    r = h1.run(ctx, exe, {}, ["WATCH %d" % WATCH] + lines, idx)
     models = [l[6:] for l in r["lines"] if l.startswith("MODEL ")]
     impls = [l[5:] for l in r["lines"] if l.startswith("IMPL ")]
     return models, impls, r
 
 
+def model_run(fix, scripts):
+    """scripts: list of lists of MODEL lines -> list of lists of model outputs"""
+    lines = []
+    for s in scripts:
+        lines += ["FIX " + " ".join("1" if fix[f] else "0" for f in FLAGS), "RESET", "WATCH %d" % WATCH] + s
+    out = C.run_model("C11", lines)
+    res, pos = [], 0
+    for s in scripts:
+        res.append(out[pos + 3: pos + 3 + len(s)])
+        pos += 3 + len(s)
+    return res
+
+
+# the scripts of the witness theorems (Props/C11.lean): one per flag that H1 can see
+PROBES = {
+    "rehook": ["CALL m 0 60 1000 61", "CALL p 100 50 1001 0", "TAIL m 1 50", "CALL m 2 40 1002 49", "THROW", "UNWIND",
+               "CATCH 49", "RET 50"],
+    "excFrame": ["CALL m 0 60 1000 61", "CALL m 1 50 1001 0", "THROW", "UNWIND", "CALL m 2 50 1002 0"],
+    "pthExit": ["CALL m 0 60 1000 61", "CALL m 1 50 1001 59", "PEXIT 106 45 1002", "CALL n 0 60 2000 0", "DTOR"],
+    "excPlt": ["CALL m 0 60 1000 61", "CALL m 1 50 1001 59", "THROW", "UNWIND", "CALL p 100 50 1002 0",
+               "CALL m 2 40 1003 59", "RET 40", "RET 50"],
+}
+
+
+class H1Gen:
+    """random well-formed op sequences (WellFormedOp of Lemmas/NonLocal.lean) with the expected
+    observable behaviour of an untraced program: where every return goes, how deep every call is."""
+
+    def __init__(self, rng, nops):
+        self.rng = rng
+        self.nops = nops
+        self.lines = []
+        self.expect = []      # per line: dict(last=..., depth_of_new_entries=[...]) for the monitor
+        self.frames = []      # dicts: slot, orig, links (number of hooked logical calls on it), id, ver
+        self.orig = 1000
+        self.fid = 0
+        self.jbs = {}         # j -> (snapshot of (id, ver) list, sslot, sorig)
+        self.calls = []       # true depth of every hooked logical call, in call order
+        self.phase = "run"    # run | exc
+        self.dead_slots = []
+        self.features = set()
+        self.ended = False
+
+    def top_slot(self):
+        return self.frames[-1]["slot"] if self.frames else 63
+
+    def depth(self):
+        return sum(f["links"] for f in self.frames)
+
+    def new_orig(self):
+        self.orig += 1
+        return self.orig
+
+    def emit(self, line, **exp):
+        self.lines.append(line)
+        self.expect.append(exp)
+
+    def call(self, k=None, slot=None, fpw=None):
+        rng = self.rng
+        if k is None:
+            k = rng.choice("nmmmp")
+        top = self.top_slot()
+        if slot is None:
+            slot = top - rng.randint(2, 4)
+        if slot < 4:
+            return False
+        child = rng.randrange(8) if k != "p" else rng.choice(F_PLAIN)
+        if fpw is None:
+            fpw = (top - 1) if (k != "m" or rng.random() < 0.7) else 0
+            if not self.frames:
+                fpw = 0 if rng.random() < 0.3 else slot + 1
+        orig = self.new_orig()
+        d = self.depth()
+        self.fid += 1
+        self.frames.append({"slot": slot, "orig": orig, "links": 0 if k == "n" else 1, "id": self.fid, "ver": 0})
+        if k != "n":
+            self.calls.append(d)
+        self.emit("CALL %s %d %d %d %d" % (k, child, slot, orig, fpw), pushed=(d if k != "n" else None))
+        return True
+
+    def ret(self):
+        f = self.frames.pop()
+        self.emit("RET %d" % f["slot"], last=f["orig"])
+
+    def tail(self):
+        f = self.frames[-1]
+        k = self.rng.choice("mmp")
+        child = self.rng.randrange(8) if k == "m" else self.rng.choice(F_PLAIN)
+        d = self.depth()
+        f["links"] += 1
+        f["ver"] += 1
+        self.calls.append(d)
+        self.emit("TAIL %s %d %d" % (k, child, f["slot"]), pushed=d)
+
+    def setjmp(self):
+        slot = self.top_slot() - self.rng.randint(2, 4)
+        if slot < 4:
+            return False
+        j = self.rng.randrange(4)
+        orig = self.new_orig()
+        self.jbs[j] = ([(f["id"], f["ver"]) for f in self.frames], slot, orig, [dict(f) for f in self.frames])
+        d = self.depth()
+        self.calls.append(d)
+        self.emit("SETJMP %d %d %d %d" % (j, self.rng.choice(F_SETJMP), slot, orig), last=orig, pushed=d)
+        return True
+
+    def live_jbs(self):
+        cur = [(f["id"], f["ver"]) for f in self.frames]
+        res = []
+        for j, (snap, sslot, sorig, frames) in self.jbs.items():
+            if len(snap) <= len(cur) and cur[:len(snap)] == snap:
+                res.append(j)
+        return res
+
+    def longjmp(self, j):
+        slot = self.top_slot() - self.rng.randint(2, 4)
+        if slot < 4:
+            return False
+        snap, sslot, sorig, frames = self.jbs[j]
+        orig = self.new_orig()
+        d = self.depth()
+        self.calls.append(d)
+        self.frames = [dict(f) for f in frames]
+        self.emit("LONGJMP %d %d %d %d" % (j, self.rng.choice(F_LONGJMP), slot, orig), last=sorig, pushed=d)
+        return True
+
+    def vfork(self):
+        slot = self.top_slot() - self.rng.randint(2, 4)
+        if slot < 4:
+            return False
+        orig = self.new_orig()
+        eorig = self.new_orig()
+        d = self.depth()
+        self.calls.append(d)
+        self.calls.append(d)
+        self.emit("VFORK %d %d %d %d %d" % (F_VFORK, slot, orig, F_EXECL, eorig), last=orig, pushed=d)
+        return True
+
+    def exception(self):
+        """throw, unwind 1..n frames with landing-pad activity, catch"""
+        rng = self.rng
+        self.emit("THROW", allorig=True)
+        while True:
+            if not self.frames:
+                return       # std::terminate: the script ends here
+            f = self.frames.pop()
+            self.dead_slots.append(f["slot"])
+            self.emit("UNWIND")
+            if not self.frames:
+                return
+            pad = self.frames[-1]
+            r = rng.random()
+            if r < 0.35:
+                # a cleanup landing pad: calls (destructors), then _Unwind_Resume
+                ncalls = rng.randint(0, 2)
+                for _ in range(ncalls):
+                    # the callee's return slot is where the dead callee's was, or a bit below the pad's frame
+                    hi = pad["slot"] - 2
+                    lo = max(self.dead_slots) if self.dead_slots else hi
+                    slot = rng.choice([lo, lo, min(hi, lo + 1)]) if lo <= hi else hi
+                    k = rng.choice("nmmp")
+                    if k == "m":
+                        fpw = rng.choice([pad["slot"] - 1, 0])
+                        if fpw == 0:
+                            self.features.add("excFrame")
+                    else:
+                        fpw = 0
+                    if k == "p":
+                        self.features.add("excPlt")
+                    if pad["links"] > 1:
+                        self.features.add("rehook")
+                    if slot >= 4 and self.call(k=k, slot=slot, fpw=fpw):
+                        if k != "n":
+                            self.dead_slots = []
+                        # the callee may call further down, then everything returns
+                        n = rng.randint(0, 2) if k != "n" else 0
+                        for _ in range(n):
+                            if not self.call():
+                                n -= 1
+                        for _ in range(n):
+                            self.ret()
+                        self.ret()
+                self.emit("RESUME", allorig=True)
+                continue
+            if r < 0.75 or len(self.frames) == 1:
+                # caught here: __cxa_begin_catch with the catching function's frame pointer
+                fa = pad["slot"] - 1
+                self.emit("CATCH %d" % fa)
+                self.dead_slots = []
+                if pad["links"] > 1:
+                    self.features.add("rehook")
+                return
+            # this frame has no handler: keep unwinding
+
+    def generate(self):
+        rng = self.rng
+        self.call(k="m", slot=62, fpw=0)
+        while len(self.lines) < self.nops and not self.ended:
+            r = rng.random()
+            dep = len(self.frames)
+            if r < 0.30:
+                if not self.call():
+                    self.ret() if self.frames else None
+            elif r < 0.52:
+                if self.frames:
+                    self.ret()
+                else:
+                    self.call(k="m", slot=62, fpw=0)
+            elif r < 0.58:
+                if self.frames:
+                    self.tail()
+                    if len(self.frames) >= 1:
+                        self.features.add("tail")
+            elif r < 0.68:
+                self.setjmp()
+            elif r < 0.78:
+                lj = self.live_jbs()
+                if lj:
+                    self.longjmp(rng.choice(lj))
+            elif r < 0.88:
+                if dep >= 2:
+                    self.exception()
+                    if not self.frames:
+                        self.ended = True
+            elif r < 0.92:
+                self.vfork()
+            else:
+                pass
+        if self.ended:
+            return
+        # the end: unwind everything normally, or one of the terminal ops
+        r = rng.random()
+        if r < 0.2 and self.frames:
+            slot = self.top_slot() - 3
+            if slot >= 4:
+                self.calls.append(self.depth())
+                self.emit("PEXIT %d %d %d" % (F_PEXIT, slot, self.new_orig()))
+                self.features.add("pthExit")
+                # the thread dies: start_thread's callees reuse the stack, then the destructor runs
+                base = self.frames[0]["slot"]
+                self.frames = []
+                o = self.new_orig()
+                self.emit("CALL n 0 %d %d 0" % (base, o))
+                self.emit("DTOR", slotval=(base, o))
+                return
+        if r < 0.3 and self.frames:
+            slot = self.top_slot() - 3
+            if slot >= 4:
+                self.calls.append(self.depth())
+                self.emit("EXIT %d %d %d" % (F_EXIT, slot, self.new_orig()))
+                return
+        while self.frames:
+            self.ret()
+
+
+def h1_monitor(gen, impls):
+    """the property on the implementation's output: every return/jump lands where the untraced program
+    would, the unwinder sees original addresses, every ENTRY record carries the true depth"""
+    bad = []
+    recs = []
+    for i, (line, exp) in enumerate(zip(gen.lines, gen.expect)):
+        if i >= len(impls):
+            bad.append("op %d (%s): libmcount died" % (i, line))
+            break
+        kv = dict(x.split("=", 1) for x in impls[i].split() if "=" in x)
+        if "last" in exp and kv.get("last") != str(exp["last"]):
+            bad.append("op %d (%s): control went to %s, the untraced program goes to %s" % (i, line, kv.get("last"),
+                                                                                      exp["last"]))
+        if exp.get("allorig"):
+            mem = kv.get("mem", "").split(",")
+            for f in gen_frames_at(gen, i):
+                if mem[f[0] - 1] != str(f[1]):
+                    bad.append("op %d (%s): the unwinder would read %s in slot %d instead of %d" % (
+                        i, line, mem[f[0] - 1], f[0], f[1]))
+        if "slotval" in exp:
+            mem = kv.get("mem", "").split(",")
+            s, v = exp["slotval"]
+            if mem[s - 1] != str(v):
+                bad.append("op %d (%s): live return slot %d overwritten with %s (was %d)" % (i, line, s, mem[s - 1], v))
+        if kv.get("recs", "-") != "-":
+            recs += kv["recs"].split(",")
+    # ENTRY records in call order carry the true depth
+    entries = [r for r in recs if r[0] == "E"]
+    for n, r in enumerate(entries):
+        if n >= len(gen.calls):
+            bad.append("more ENTRY records than hooked calls")
+            break
+        d = int(r.split(".")[1])
+        if d != gen.calls[n]:
+            bad.append("ENTRY record %d (%s) has depth %d, the call was made at depth %d" % (n, r, d, gen.calls[n]))
+            break
+    return bad
+
+
+def gen_frames_at(gen, i):
+    return gen.frames_log.get(i, [])
+
+
+# ============================================================================ H5
+E2E_OPS = ("OP_CALL OP_RET OP_LEAF OP_SPIN OP_SETJMP OP_SIGSETJMP OP_LONGJMP OP_SIGLONGJMP OP_TAIL OP_VFORK OP_FORK "
+           "OP_THREAD OP_PEXIT OP_EXIT OP_LIBTAIL OP_TRYCALL OP_DTORCALL OP_RETHROWCALL OP_THROW OP_LIBDTORCALL "
+           "OP_LIBCBCATCH OP_STATICTHROW").split()
+NAME_ID = {"leaf": 20, "spin": 21, "do_vfork": 22, "cb_plain": 23, "cb_void": 23, "Obj::Obj": 24,
+           "ThrowingInit::ThrowingInit": 24, "Obj::~Obj": 25, "cb_catch": 26, "static_init_throws": 27}
+for _i in range(6):
+    NAME_ID["f%d" % _i] = _i
+for _i in range(3):
+    NAME_ID["t%d" % _i] = 10 + _i
+FLAVOURS = {"pg": ["-pg"], "cyg": ["-finstrument-functions"], "fentry": ["-pg", "-mfentry"]}
+
+
+class E2EGen:
+    """random scripts for harness/c11_e2e.c; simulates the interpreter to keep the script well defined"""
+
+    def __init__(self, rng, cpp, nops, allow=("thread", "fork", "vfork", "exit", "lib"), calm=False):
+        self.rng = rng
+        self.cpp = cpp
+        # calm: no exceptions and no setjmp/longjmp (programs interrupted by an asynchronous signal: a signal
+        # inside the unwinder or between longjmp's entry and exit hooks is outside the model and not deterministic)
+        self.calm = calm
+        self.nops = nops
+        self.allow = set(allow)
+        self.ops = []
+        self.features = set()
+        self.arm_clock = 0
+
+    def op(self, kind, a=0, b=0):
+        self.ops.append((kind, a, b))
+
+    def pick_f(self):
+        return self.rng.randrange(6)
+
+    def pick_any(self, stack):
+        # t-functions only from t- or f-functions; both fine
+        return self.rng.choice([0, 1, 2, 3, 4, 5, 10, 11, 12])
+
+    def segment(self, budget, bufs, root_depth, in_thread=False, simple=False, may_exit=False):
+        """ops executed by one thread of control starting in a fresh f-function at `root_depth`; returns when
+        the root returned (or the thread/process ended).  The stack holds dicts: fn, via, armed(bufs)"""
+        rng = self.rng
+        stack = [{"fn": 0, "via": "root", "armed": set(), "t": False}]
+        armed = {}     # buf -> (stack height, armed order)
+        order = [0]
+        n0 = len(self.ops)
+
+        def pop_frame():
+            f = stack.pop()
+            for b in list(armed):
+                if armed[b][0] > len(stack):
+                    del armed[b]
+            return f
+
+        def do_return():
+            """the top function returns; tail callers return with it; cb_catch returns with its callee"""
+            f = pop_frame()
+            while stack and f["via"] in ("tail", "trycb"):
+                f = pop_frame()
+            return not stack
+
+        def can_throw():
+            # nearest handler: a frame entered via try (catch(int)) - rethrow frames pass it on
+            for f in reversed(stack):
+                if f["via"] in ("try", "trycb"):
+                    return True
+            return False
+
+        def do_throw():
+            self.op("OP_THROW", rng.randint(1, 50))
+            while stack:
+                f = stack[-1]
+                if f["via"] in ("dtor", "libdtor"):
+                    self.features.add("excdtor")
+                    if f["via"] == "libdtor":
+                        self.features.add("excPlt")
+                if f["via"] == "try":
+                    pop_frame()
+                    return
+                if f["via"] == "trycb":
+                    pop_frame()     # the callee
+                    pop_frame()     # cb_catch itself returns at once
+                    self.features.add("rehook")
+                    return
+                pop_frame()
+
+        while True:
+            top = stack[-1]
+            left = budget - (len(self.ops) - n0)
+            depth = root_depth + len(stack) - 1
+            if left <= 0:
+                # wind down
+                if top["t"]:
+                    self.op("OP_RET", rng.randint(0, 9))
+                else:
+                    self.op("OP_RET", rng.randint(0, 9))
+                if do_return():
+                    return "returned"
+                continue
+            r = rng.random()
+            if top["t"]:
+                # tail-capable functions: call, leaf, ret, tail, throw
+                if r < 0.25:
+                    self.op("OP_LEAF")
+                elif r < 0.45 and len(stack) < 12:
+                    fn = rng.choice([0, 1, 2, 3, 4, 5, 10, 11, 12])
+                    self.op("OP_CALL", fn)
+                    stack.append({"fn": fn, "via": "call", "armed": set(), "t": fn >= 10})
+                elif r < 0.65 and len(stack) < 12:
+                    fn = rng.choice([10, 11, 12, 0, 1])
+                    self.op("OP_TAIL", fn)
+                    self.features.add("tail")
+                    stack.append({"fn": fn, "via": "tail", "armed": set(), "t": fn >= 10})
+                elif r < 0.72 and self.cpp and can_throw():
+                    do_throw()
+                else:
+                    self.op("OP_RET", rng.randint(0, 9))
+                    if do_return():
+                        return "returned"
+                continue
+            if r < 0.14:
+                self.op("OP_LEAF")
+            elif r < 0.17:
+                self.op("OP_SPIN", rng.randint(20, 200))
+            elif r < 0.40 and len(stack) < 12:
+                fn = self.pick_any(stack)
+                kinds = ["OP_CALL", "OP_CALL"]
+                if self.cpp and not simple and self.calm:
+                    kinds += ["OP_DTORCALL"]
+                if self.cpp and not simple and not self.calm:
+                    kinds += ["OP_TRYCALL", "OP_TRYCALL", "OP_DTORCALL", "OP_RETHROWCALL"]
+                    if "lib" in self.allow:
+                        kinds += ["OP_LIBDTORCALL"]
+                k = rng.choice(kinds)
+                self.op(k, fn)
+                via = {"OP_CALL": "call", "OP_TRYCALL": "try", "OP_DTORCALL": "dtor", "OP_RETHROWCALL": "rethrow",
+                       "OP_LIBDTORCALL": "libdtor"}[k]
+                stack.append({"fn": fn, "via": via, "armed": set(), "t": fn >= 10})
+            elif r < 0.46 and len(stack) < 12:
+                fn = self.pick_any(stack)
+                self.op("OP_TAIL", fn)
+                stack.append({"fn": fn, "via": "tail", "armed": set(), "t": fn >= 10})
+            elif r < 0.56 and not simple and not self.calm:
+                b = rng.choice(bufs)
+                sig = rng.random() < 0.3
+                self.op("OP_SIGSETJMP" if sig else "OP_SETJMP", b)
+                self.arm_clock += 1
+                armed[(b, sig)] = (len(stack), self.arm_clock)
+            elif r < 0.66 and armed and not simple:
+                key = rng.choice(sorted(armed))
+                height, _ = armed[key]
+                # C++: never jump over frames that own objects or handlers
+                crossed = stack[height:]
+                if self.cpp and any(f["via"] in ("dtor", "libdtor", "try", "rethrow", "trycb", "cbframe") for f in crossed):
+                    continue
+                if armed[key][1] != self.arm_clock:
+                    # not the setjmp that replay saw last
+                    self.features.add("replay")
+                self.op("OP_SIGLONGJMP" if key[1] else "OP_LONGJMP", key[0])
+                del stack[height:]
+                for b in list(armed):
+                    if armed[b][0] > len(stack):
+                        del armed[b]
+            elif r < 0.72 and self.cpp and can_throw() and not simple:
+                do_throw()
+            elif r < 0.75 and self.cpp and not simple and not self.calm and "lib" in self.allow and len(stack) < 10:
+                # library tail-calls cb_catch, which calls a function that throws at once or returns
+                fn = self.pick_f()
+                self.features.add("libtail")
+                self.op("OP_LIBCBCATCH")
+                self.op("OP_CALL", fn)
+                stack.append({"fn": 26, "via": "cbframe", "armed": set(), "t": False})
+                stack.append({"fn": fn, "via": "trycb", "armed": set(), "t": False})
+            elif r < 0.78 and self.cpp and not simple and not self.calm:
+                self.op("OP_STATICTHROW")
+                self.features.add("excPlt")
+            elif r < 0.81 and "lib" in self.allow:
+                self.op("OP_LIBTAIL")
+                self.features.add("libtail")
+            elif r < 0.84 and "vfork" in self.allow and not simple:
+                self.op("OP_VFORK", rng.randint(0, 1))
+            elif r < 0.87 and "fork" in self.allow and not simple and not in_thread:
+                fn = self.pick_f()
+                at = len(self.ops)
+                self.op("OP_FORK", fn, 0)
+                n1 = len(self.ops)
+                self.segment(rng.randint(2, 8), [], depth + 1, simple=True)
+                self.ops[at] = ("OP_FORK", fn, len(self.ops) - n1)
+            elif r < 0.90 and "thread" in self.allow and not simple and not in_thread:
+                fn = self.pick_f()
+                self.op("OP_THREAD", fn)
+                self.segment(rng.randint(3, 14), [2, 3], 1, in_thread=True)
+            elif r < 0.93 and in_thread and not simple:
+                self.op("OP_PEXIT", rng.randint(1, 9))
+                self.features.add("pthExit")
+                return "pexit"
+            elif r < 0.94 and may_exit and "exit" in self.allow and len(stack) > 1:
+                self.op("OP_EXIT", rng.randint(0, 9))
+                return "exit"
+            else:
+                self.op("OP_RET", rng.randint(0, 9))
+                if do_return():
+                    return "returned"
+
+    def generate(self):
+        self.segment(self.nops, [0, 1], 1, may_exit=True)
+        # padding: anything read past the end would be a generator bug
+        self.op("OP_EXIT", 42)
+        return self.ops
+
+
+def script_h(ops):
+    body = ", ".join("{%s,%d,%d}" % o for o in ops)
+    return ('#include "c11_e2e.h"\n#ifdef __cplusplus\nextern "C" {\n#endif\n'
+            'const struct op script[] = { %s };\n#ifdef __cplusplus\n}\n#endif\n' % body)
+
+
+def build_e2e_support(ctx):
+    d = os.path.join(ctx.scratch, "e2e")
+    os.makedirs(d, exist_ok=True)
+    H = os.path.join(C.VERIF, "harness")
+    r = C.sh(["g++", "-O2", "-fPIC", "-shared", "-I", H, "-o", os.path.join(d, "libc11e2e.so"),
+              os.path.join(H, "c11_e2e_lib.cc")])
+    if r.returncode != 0:
+        return None, r.stdout
+    r = C.sh(["gcc", "-O2", "-c", "-I", H, os.path.join(H, "c11_e2e_gt.c"), "-o", os.path.join(d, "gt.o")])
+    if r.returncode != 0:
+        return None, r.stdout
+    return d, ""
+
+
+def build_prog(d, name, ops, cpp, flavour, opt):
+    H = os.path.join(C.VERIF, "harness")
+    pd = os.path.join(d, name)
+    os.makedirs(pd, exist_ok=True)
+    with open(os.path.join(pd, "script.h"), "w") as f:
+        f.write(script_h(ops))
+    exe = os.path.join(pd, "prog")
+    cc = ["g++", "-x", "c++"] if cpp else ["gcc", "-x", "c"]
+    cmd = cc + [opt, "-g", "-w"] + FLAVOURS[flavour] + ["-I", H, "-include", os.path.join(pd, "script.h"),
+                                                        os.path.join(H, "c11_e2e.c"), "-x", "none",
+                                                        os.path.join(d, "gt.o"), "-L", d, "-lc11e2e",
+                                                        "-Wl,-rpath," + d, "-lpthread", "-o", exe]
+    r = C.sh(cmd)
+    return (exe if r.returncode == 0 else None), r.stdout, pd
+
+
+def parse_gt(text):
+    """ground-truth log -> (entries per logical thread, tid map, the rest of the lines)"""
+    ent, tids, rest = {}, {}, []
+    pexit = {}
+    for line in text.split("\n"):
+        p = line.split()
+        if not p:
+            continue
+        if p[0] == "N" and len(p) == 4 and p[2] == "pexit":
+            pexit.setdefault(int(p[1]), len(ent.get(int(p[1]), [])))
+            rest.append(line)
+        elif p[0] == "T" and len(p) == 3:
+            tids[int(p[2])] = int(p[1])
+        elif p[0] == "E" and len(p) == 4:
+            ent.setdefault(int(p[1]), []).append((int(p[2]), int(p[3])))
+            rest.append(line)
+        else:
+            rest.append(line)
+    for idx, n in pexit.items():
+        # nothing is claimed about the depth of what runs while the thread is being torn down
+        ent[idx] = ent.get(idx, [])[:n]
+    return ent, tids, rest
+
+
+def run_e2e_case(ctx, d, uftrace_src, name, ops, cpp, flavour, opt, alarm=False, record_opts=(), behaviour_only=False):
+    """build, run natively and traced, compare.  Returns dict(problems=[...], info)"""
+    res = {"name": name, "flavour": flavour, "opt": opt, "cpp": cpp, "problems": [], "nops": len(ops), "alarm": alarm}
+    exe, log, pd = build_prog(d, name, ops, cpp, flavour, opt)
+    if not exe:
+        res["problems"].append("build failed: " + log[-400:])
+        res["build_failed"] = True
+        return res
+    args = ["alarm"] if alarm else []
+    try:
+        p = subprocess.run([exe] + args, stdout=subprocess.PIPE, stderr=subprocess.PIPE, timeout=60)
+        nrc, nout = p.returncode, p.stdout.decode("utf-8", "replace")
+    except subprocess.TimeoutExpired:
+        res["problems"].append("native run timed out (generator bug)")
+        res["build_failed"] = True
+        return res
+    dd = os.path.join(pd, "data")
+    cmd = ["timeout", "-s", "KILL", "60", os.path.join(uftrace_src, "uftrace"), "record",
+           "--libmcount-path=" + os.path.join(uftrace_src, "libmcount"), "--no-event", "--no-pager", "-d", dd] + \
+        list(record_opts) + [exe] + args
+    p = subprocess.run(cmd, stdout=subprocess.PIPE, stderr=subprocess.PIPE)
+    tout, terr = p.stdout.decode("utf-8", "replace"), p.stderr.decode("utf-8", "replace")
+    n_ent, n_tids, n_rest = parse_gt(nout)
+    t_ent, t_tids, t_rest = parse_gt(tout)
+    res["native_rc"] = nrc
+    res["entries"] = sum(len(v) for v in n_ent.values())
+    if n_rest != t_rest:
+        k = next((i for i in range(min(len(n_rest), len(t_rest))) if n_rest[i] != t_rest[i]), min(len(n_rest), len(t_rest)))
+        res["problems"].append("output differs from the native run at line %d: native %r, traced %r; stderr: %s" % (
+            k, n_rest[k] if k < len(n_rest) else None, t_rest[k] if k < len(t_rest) else None, terr.strip()[-300:]))
+    # uftrace record exits 1 for any non-zero tracee status
+    trc = p.returncode
+    if (nrc == 0) != (trc == 0):
+        res["problems"].append("exit status: native %d, uftrace record %d; stderr: %s" % (nrc, trc, terr.strip()[-300:]))
+    if res["problems"] or behaviour_only:
+        return res
+    # replay: every traced call at its ground-truth depth
+    rc, out, err = datadir.run_uftrace(os.path.join(uftrace_src, "uftrace"), "replay", dd, timeout=60)
+    if rc != 0:
+        res["problems"].append("replay failed rc=%d %s" % (rc, err[-300:]))
+        return res
+    ev = datadir.parse_replay(out)
+    shown = {}
+    gone = set()
+    for kind, tid, depth, nm, _ in ev:
+        if kind in ("E", "L") and nm == "pthread_exit":
+            gone.add(tid)
+        if kind in ("E", "L") and nm in NAME_ID and tid in t_tids and tid not in gone:
+            shown.setdefault(t_tids[tid], []).append((NAME_ID[nm], depth))
+    for idx in sorted(t_ent):
+        want, got = t_ent[idx], shown.get(idx, [])
+        if want != got:
+            k = next((i for i in range(min(len(want), len(got))) if want[i] != got[i]), min(len(want), len(got)))
+            res["problems"].append("replay depth: thread %d call #%d: ground truth (fn,depth)=%s, replay shows %s" % (
+                idx, k, want[k] if k < len(want) else None, got[k] if k < len(got) else None))
+            break
+    res["replay_calls"] = sum(len(v) for v in shown.values())
+    # the record stream must be coherent, and the Lean replay model must agree with replay's indentation
+    rc, out, err = datadir.run_uftrace(os.path.join(uftrace_src, "uftrace"), "dump", dd, timeout=60)
+    if rc == 0:
+        res["streams"] = parse_dump(out)
+    return res
+
+
+DUMP_LINE = re.compile(r"^\s*([\d.]+)\s+(\d+): \[(entry|exit )\] (.*)\(([0-9a-f]+)\) depth: (\d+)")
+
+
+def parse_dump(text):
+    streams = {}
+    for line in text.split("\n"):
+        m = DUMP_LINE.match(line)
+        if not m:
+            continue
+        tid = int(m.group(2))
+        typ = 0 if m.group(3) == "entry" else 1
+        nm = m.group(4)
+        kind = "s" if "setjmp" in nm else "l" if "longjmp" in nm else "p"
+        streams.setdefault(tid, []).append((typ, int(m.group(6)), kind, nm))
+    return streams
+
+
+# ---- the fixed probes (one per finding that H5 can see) ----
+def P(kind, a=0, b=0):
+    return (kind, a, b)
+
+
+def e2e_probes():
+    pr = {}
+    # longjmp to the older of two live jmp_bufs, then more calls
+    pr["replay"] = dict(cpp=False, flavour="pg", opt="-O0", ops=[
+        P("OP_SETJMP", 0), P("OP_LEAF"), P("OP_CALL", 1), P("OP_SETJMP", 1), P("OP_CALL", 2), P("OP_LEAF"),
+        P("OP_LONGJMP", 0), P("OP_LEAF"), P("OP_CALL", 3), P("OP_LEAF"), P("OP_RET", 1), P("OP_LEAF"), P("OP_RET", 0)])
+    # pthread_exit from a nested call, with an object in a frame (C++)
+    pr["pthExit"] = dict(cpp=True, flavour="pg", opt="-O0", ops=[
+        P("OP_THREAD", 1), P("OP_LEAF"), P("OP_DTORCALL", 2), P("OP_LEAF"), P("OP_CALL", 3), P("OP_PEXIT", 7),
+        P("OP_LEAF"), P("OP_RET", 0)])
+    # a library function tail-calls a traced callback that catches and returns at once
+    pr["rehook"] = dict(cpp=True, flavour="pg", opt="-O0", ops=[
+        P("OP_LEAF"), P("OP_LIBCBCATCH"), P("OP_CALL", 1), P("OP_LEAF"), P("OP_THROW", 5), P("OP_LEAF"), P("OP_RET", 0)])
+    # exception out of a static initialiser; library destructor calling back from a landing pad
+    pr["excPlt"] = dict(cpp=True, flavour="pg", opt="-O0", ops=[
+        P("OP_LEAF"), P("OP_STATICTHROW"), P("OP_LEAF"), P("OP_TRYCALL", 1), P("OP_LIBDTORCALL", 2), P("OP_LEAF"),
+        P("OP_THROW", 9), P("OP_LEAF"), P("OP_RET", 0)])
+    # destructor called from a landing pad with -mfentry
+    pr["excFrame"] = dict(cpp=True, flavour="fentry", opt="-O0", ops=[
+        P("OP_TRYCALL", 1), P("OP_DTORCALL", 2), P("OP_LEAF"), P("OP_THROW", 3), P("OP_LEAF"), P("OP_RET", 0)])
+    # setjmp below more than 1024 open calls with --max-stack 2000
+    deep = [P("OP_CALL", 1 + (i % 5)) for i in range(1040)] + [P("OP_SETJMP", 0), P("OP_LEAF"), P("OP_CALL", 2),
+                                                               P("OP_LONGJMP", 0), P("OP_LEAF")] + \
+        [P("OP_RET", 0) for _ in range(1041)]
+    pr["jmpCap"] = dict(cpp=False, flavour="pg", opt="-O0", ops=deep, record_opts=["--max-stack", "2000", "-D", "2000"])
+    # -finstrument-functions: a callback tail-called by a library function makes a library call
+    pr["cygTail"] = dict(cpp=False, flavour="cyg", opt="-O0", ops=[
+        P("OP_LEAF"), P("OP_LIBTAIL"), P("OP_LEAF"), P("OP_CALL", 1), P("OP_LEAF"), P("OP_RET", 1), P("OP_RET", 0)])
+    for v in pr.values():
+        v["ops"] = v["ops"] + [P("OP_EXIT", 42)]
+    return pr
+
+
+# ============================================================================ run
+def report_finding(ctx, findings, fid, replay_obj, name):
+    if fid in findings:
+        C.known(ctx, findings[fid], "%s %s" % (fid, WHAT[fid]))
+    else:
+        obj = dict(replay_obj)
+        obj.update({"kind": "property-violated-on-implementation", "finding": fid, "what": WHAT[fid]})
+        C.violation(ctx, name, obj)
+
+
 def run(ctx):
-    raise SystemExit("not finished")
+    ok, problems = C.prove(ctx, "C11")
+    if not ok:
+        C.violation(ctx, "proof", {"kind": "proof-obligation-broken", "problems": problems}, True)
+        return C.finish(ctx)
+    findings = {f["id"]: f for f in C.known_findings("C11")}
+    quick = ctx.tier == "quick"
+
+    # ---------------------------------------------------------------- builds (in parallel)
+    ctx.snapshot()
+    with ThreadPoolExecutor(2) as ex:
+        fut_make = ex.submit(ctx.make)
+        exe, log = build_h1(ctx)
+        made, mlog = fut_make.result()
+    if not exe:
+        C.violation(ctx, "build", {"kind": "harness-build-failed", "log": log[-3000:]}, True)
+        return C.finish(ctx)
+    if not made:
+        C.violation(ctx, "build", {"kind": "uftrace-build-failed", "log": mlog[-3000:]}, True)
+        return C.finish(ctx)
+
+    # ---------------------------------------------------------------- H1: which variant is this tree?
+    pnames = sorted(PROBES)
+    with ThreadPoolExecutor(8) as ex:
+        pres = list(ex.map(lambda a: run_script(ctx, exe, PROBES[a[1]], 9000 + a[0]), enumerate(pnames)))
+    fix = {f: True for f in FLAGS}
+    all_fixed = model_run({f: True for f in FLAGS}, [r[0] for r in pres])
+    none_fixed = model_run({f: False for f in FLAGS}, [r[0] for r in pres])
+    probe_state = {}
+    for name, (models, impls, r), mf, mn in zip(pnames, pres, all_fixed, none_fixed):
+        def agree(mo):
+            for i, m in enumerate(mo):
+                if m == "dead":
+                    return len(impls) == i
+                if i >= len(impls) or C.norm(impls[i]) != C.norm(m):
+                    return False
+            return len(impls) == len(mo)
+        if models != [l for l in (norm_model_line(x) for x in PROBES[name])]:
+            probe_state[name] = "harness"
+        elif agree(mf):
+            probe_state[name] = "fixed"
+        elif agree(mn):
+            probe_state[name] = "asis"
+            fix[name] = False
+        else:
+            probe_state[name] = "neither"
+    for name, st in probe_state.items():
+        if st in ("neither", "harness"):
+            i = pnames.index(name)
+            C.violation(ctx, "h1-probe-" + name, {"kind": "model-code-disagreement", "probe": PROBES[name],
+                                                  "impl": pres[i][1], "model_fixed": all_fixed[i],
+                                                  "model_as_is": none_fixed[i], "stderr": pres[i][2]["stderr"][-500:],
+                                                  "theorem": "c11_instep_invariant (correspondence)"}, True)
+
+    # ---------------------------------------------------------------- H1: random scripts
+    nscripts = 60 if quick else 1500
+    gens = []
+    for i in range(nscripts):
+        g = H1Gen(ctx.rng, ctx.rng.choice([12, 25, 40, 70]))
+        g.frames_log = {}
+        patch_frames_log(g)
+        g.generate()
+        gens.append(g)
+    with ThreadPoolExecutor(16) as ex:
+        outs = list(ex.map(lambda a: run_script(ctx, exe, a[1].lines, a[0]), enumerate(gens)))
+    mouts = model_run(fix, [[norm_model_line(l) for l in g.lines] for g in gens])
+    disagree = 0
+    monitor_fail = 0
+    attributed = {}
+    nops = 0
+    opkinds = {}
+    distinct = set()
+    samples = []
+    for i, (g, (models, impls, r), mo) in enumerate(zip(gens, outs, mouts)):
+        nops += len(g.lines)
+        for l in g.lines:
+            opkinds[l.split()[0]] = opkinds.get(l.split()[0], 0) + 1
+        distinct.add(tuple(l.split()[0] + (l.split()[1] if l.split()[0] in ("CALL", "TAIL") else "") for l in g.lines))
+        bad = None
+        if models != [norm_model_line(l) for l in g.lines][:len(models)] or len(models) not in (len(impls), len(impls) + 1):
+            bad = "harness produced %d MODEL / %d IMPL lines for %d ops; stderr %s" % (len(models), len(impls), len(g.lines),
+                                                                                     r["stderr"][-300:])
+        else:
+            for k, m in enumerate(mo):
+                if m == "dead":
+                    if len(impls) != k:
+                        bad = "op %d (%s): model reaches pr_err/ASSERT, implementation continues" % (k, g.lines[k])
+                    break
+                if k >= len(impls):
+                    bad = "op %d (%s): implementation died (%s), model continues: %s" % (k, g.lines[k],
+                                                                                   r["stderr"].strip()[-200:], m)
+                    break
+                if C.norm(impls[k]) != C.norm(m):
+                    bad = "op %d (%s): impl %s | model %s" % (k, g.lines[k], impls[k], m)
+                    break
+        mon = h1_monitor(g, impls)
+        if len(samples) < 3 and i % 17 == 3:
+            samples.append({"script": g.lines[:12], "impl": impls[:3], "model": mo[:3]})
+        if bad:
+            disagree += 1
+            if disagree <= 3:
+                C.violation(ctx, "h1-case%d" % i, {"kind": "model-code-disagreement", "what": bad, "script": g.lines,
+                                                   "fix_flags": fix, "monitor": mon[:3],
+                                                   "theorem": "c11_instep_invariant (correspondence)"},
+                            no_failing_input=not mon)
+        elif mon:
+            monitor_fail += 1
+            unf = [f for f in g.features if f in fix and not fix[f]]
+            if unf:
+                for f in unf:
+                    attributed[f] = attributed.get(f, 0) + 1
+            else:
+                C.violation(ctx, "h1-monitor%d" % i, {"kind": "property-violated-on-implementation", "what": mon[:5],
+                                                      "script": g.lines, "fix_flags": fix,
+                                                      "theorem": "c11_every_return_reaches_caller / c11_trace_depth_after_jump"})
+
+    # ---------------------------------------------------------------- H5
+    d, log = build_e2e_support(ctx)
+    if not d:
+        C.violation(ctx, "build", {"kind": "e2e-support-build-failed", "log": log[-2000:]}, True)
+        return C.finish(ctx)
+    probes = e2e_probes()
+    cases = []
+    for name in sorted(probes):
+        p = probes[name]
+        cases.append(("probe-" + name, p["ops"], p["cpp"], p["flavour"], p["opt"], False, p.get("record_opts", ()), {name}))
+    nprog = 14 if quick else 400
+    flv = ["pg", "cyg", "fentry"]
+    for i in range(nprog):
+        cpp = ctx.rng.random() < 0.6
+        alarm = (i % 5 == 4)
+        g = E2EGen(ctx.rng, cpp, ctx.rng.choice([25, 50, 90]), calm=alarm)
+        ops = g.generate()
+        flavour = flv[i % 3]
+        opt = "-O2" if (i // 3) % 2 else "-O0"
+        feats = set(g.features)
+        if "excdtor" in feats and flavour == "fentry":
+            feats.add("excFrame")
+        if "libtail" in feats and flavour == "cyg":
+            feats.add("cygTail")
+        cases.append(("prog%d" % i, ops, cpp, flavour, opt, alarm, (), feats))
+    with ThreadPoolExecutor(12) as ex:
+        eres = list(ex.map(lambda c: run_e2e_case(ctx, d, ctx.src, c[0], c[1], c[2], c[3], c[4], c[5], c[6],
+                                                  behaviour_only=(c[0] == "probe-jmpCap")), cases))
+    e2e_fix = {}
+    e2e_bad = 0
+    e2e_attr = {}
+    calls_checked = 0
+    streams = []
+    for c, r in zip(cases, eres):
+        name, feats = c[0], c[7]
+        calls_checked += r.get("replay_calls", 0)
+        for tid, st in (r.get("streams") or {}).items():
+            streams.append((name, tid, st))
+        if r.get("build_failed"):
+            C.violation(ctx, "e2e-" + name, {"kind": "harness-failed", "what": r["problems"]}, True)
+            continue
+        if name.startswith("probe-"):
+            e2e_fix[name[6:]] = not r["problems"]
+            r["probe"] = True
+            continue
+        if r["problems"]:
+            e2e_bad += 1
+            r["features"] = sorted(feats)
+    # the probes decide which findings are present in this tree
+    unfixed = set(f for f in FLAGS if not fix.get(f, True)) | set(f for f, okp in e2e_fix.items() if not okp)
+    for f in ("rehook", "excFrame", "pthExit", "excPlt"):
+        if f in e2e_fix and f in probe_state and probe_state[f] in ("fixed", "asis"):
+            if e2e_fix[f] != (probe_state[f] == "fixed") and f != "excFrame":
+                ctx.notes.append("probe %s: H1 says %s, H5 probe %s" % (f, probe_state[f], "passes" if e2e_fix[f] else "fails"))
+    for c, r in zip(cases, eres):
+        name, feats = c[0], c[7]
+        if r.get("probe") or not r["problems"] or r.get("build_failed"):
+            continue
+        expl = sorted(f for f in feats if f in unfixed)
+        if expl:
+            for f in expl:
+                e2e_attr[f] = e2e_attr.get(f, 0) + 1
+        else:
+            C.violation(ctx, "e2e-" + name, {
+                "kind": "property-violated-on-implementation", "what": r["problems"], "flavour": r["flavour"],
+                "opt": r["opt"], "lang": "c++" if r["cpp"] else "c", "alarm": r["alarm"], "script": c[1],
+                "how": "write the script as script.h (see checks/c11.py script_h), build harness/c11_e2e.c as "
+                       "build_prog() does, run it natively and under uftrace record, compare",
+                "theorem": "c11_every_return_reaches_caller / c11_trace_depth_after_jump"})
+    # every as-coded variant is a violation of the property (or a known finding)
+    for f in sorted(unfixed):
+        fid = FINDING_OF[f]
+        i = pnames.index(f) if f in pnames else None
+        pr = probes.get(f)
+        er = next((r for c, r in zip(cases, eres) if c[0] == "probe-" + f), None)
+        report_finding(ctx, findings, fid, {
+            "h1_script": PROBES.get(f), "h1_impl": pres[i][1] if i is not None else None,
+            "h1_model_repaired": all_fixed[i] if i is not None else None,
+            "e2e_probe": {"script": pr["ops"][:40], "lang": "c++" if pr["cpp"] else "c", "flavour": pr["flavour"],
+                          "record_opts": pr.get("record_opts")} if pr else None,
+            "e2e_result": er["problems"] if er else None,
+            "random_cases_attributed": {"h1": attributed.get(f, 0), "e2e": e2e_attr.get(f, 0)},
+        }, "finding-" + f)
+
+    # ---------------------------------------------------------------- replay model vs replay, coherence monitor
+    rq = []
+    for name, tid, st in streams:
+        rq.append("REPLAY %d %s" % (0 if "replay" in unfixed else 1, " ".join("%d.%d.%s" % (t, dp, k) for t, dp, k, _ in st)))
+    incoherent = 0
+    if rq:
+        ro = C.run_model("C11", rq)
+        for (name, tid, st), line in zip(streams, ro):
+            coh = line.split()[0] == "coh=1"
+            if not coh:
+                incoherent += 1
+                # streams of programs that hit a finding may be incoherent; others must not be
+                c = next(c for c in cases if c[0] == name)
+                if not (set(c[7]) & (unfixed | {"pthExit"})) and not c[5] and incoherent <= 2:
+                    C.violation(ctx, "stream-" + name, {"kind": "property-violated-on-implementation",
+                                                        "what": "record stream of task %d is not coherent" % tid,
+                                                        "stream": ["%d.%d.%s %s" % x for x in st][:80],
+                                                        "theorem": "c11_replay_depth_coherent (hypothesis)"})
+
+    ctx.coverage.update({
+        "evaluations": nops + sum(r.get("entries", 0) for r in eres),
+        "distinct_nontrivial": len(distinct) + len(cases),
+        "rule": "H1: random op sequences generated by a simulation of the real stack (WellFormedOp), each op compared "
+                "with the model in full (returned address, 63 return slots, idx, record_idx, in_exception, new records) "
+                "and checked by the monitors (return target, unwinder view, ENTRY depth); distinct = distinct op-kind "
+                "sequences.  H5: generated interpreter scripts, native vs traced stdout/status, replay depth of every "
+                "traced call vs the program's own log, record-stream coherence and Lean replay model",
+        "h1_scripts": nscripts, "h1_ops": nops, "h1_op_kinds": opkinds, "h1_probe_state": probe_state,
+        "h1_model_code_disagreements": disagree, "h1_monitor_failures": monitor_fail,
+        "h1_monitor_failures_attributed": attributed,
+        "e2e_programs": len(cases), "e2e_calls_depth_checked": calls_checked, "e2e_failures": e2e_bad,
+        "e2e_failures_attributed": e2e_attr, "e2e_probe_passes": e2e_fix,
+        "e2e_distribution": {"flavours": flv, "opt": ["-O0", "-O2"], "cpp_share": 0.6, "alarm_every": 5},
+        "streams_checked": len(streams), "streams_incoherent": incoherent,
+        "fix_flags_detected": fix, "unfixed_findings": sorted(FINDING_OF[f] for f in unfixed),
+        "exhaustive": False, "samples": samples,
+    })
+    ctx.assumptions += [
+        "x86_64: ARCH_SUPPORT_AUTO_RECOVER = 1, ARCH_CAN_RESTORE_PLTHOOK = 1; no --estimate-return; no filters in H1",
+        "WellFormedOp: new frames lie below all live frames; longjmp targets a live setjmp frame; in a landing pad the "
+        "callee's frame-pointer word separates unwound from live hooked frames; only unhooked code returns while "
+        "in_exception is set",
+        "vforkExec is covered by the executable model and both harnesses, not by c11_instep_invariant",
+        "the -finstrument-functions path (cygprof_dummy return slot) and signal arrival inside the hooks: H5 only",
+    ]
+    return C.finish(ctx)
+
+
+def norm_model_line(x):
+    p = x.split()
+    if p[0] == "RET":
+        return "RET"
+    if p[0] == "TAIL":
+        return "TAIL %s %s" % (p[1], p[2])
+    return x
+
+
+def patch_frames_log(g):
+    """remember the live frames (slot, orig) at ops whose expectation talks about all of them"""
+    orig_emit = g.emit
+
+    def emit(line, **exp):
+        if exp.get("allorig"):
+            g.frames_log[len(g.lines)] = [(f["slot"], f["orig"]) for f in g.frames]
+        orig_emit(line, **exp)
+    g.emit = emit
 
 
 def replay(ctx, path):
     print(json.dumps(json.load(open(path)), indent=1))
     return 0
-
-
-if __name__ == "__main__":
-    # development aid: python3 -m checks.c11 <scriptfile>
-    ctx = C.Ctx("C11", "quick", 0)
-    exe, log = build_h1(ctx)
-    print(exe, log)
-    if exe:
-        lines = open(sys.argv[1]).read().split("\n")
-        m, i, r = run_script(ctx, exe, lines, 0)
-        fix = sys.argv[2] if len(sys.argv) > 2 else "0 0 0 0 0"
-        mo = C.run_model("C11", ["FIX " + fix, "RESET"] + m)[2:]
-        for a, b, c in zip(m, i, mo):
-            print("OP   ", a)
-            print(" impl", b)
-            print(" modl", c, "" if C.norm(b) == C.norm(c) else "   <<<<<< DIFF")
-        print("rc", r["rc"], r["stderr"][-500:], len(m), len(i), len(mo))
